@@ -5,7 +5,7 @@ NN=$1
 [ -f /verif/seeded/C${NN}h/meta.json ] || python3 - $NN <<'PY'
 import json,sys
 nn=sys.argv[1]
-json.dump({'property':'C'+nn,'breaks':'(pending)','needs_to_manifest':'(pending)','round':8,'files':{'patch':'patch.diff','demonstration':'demo.py'}},open('/verif/seeded/C%sg/meta.json'%nn,'w'))
+json.dump({'property':'C'+nn,'breaks':'(pending)','needs_to_manifest':'(pending)','round':8,'files':{'patch':'patch.diff','demonstration':'demo.py'}},open('/verif/seeded/C%sh/meta.json'%nn,'w'))
 PY
 cd /verif
 s=C${NN}h; wt=/tmp/wt/J$NN; prop=C$NN
